@@ -21,6 +21,13 @@ TEncOK(ev) ==
              /\ At(fr, 16) = 0                                     \* no transforms
              /\ SameParam(r.param, p)                              \* decodes back to exactly the same parameters
 
+\* Encode over a bufiox.Writer that accepts `budget` bytes and then fails (flen = length of the frame the same
+\* parameters produce on an unlimited writer, judged by TEncOK): success exactly when the frame fits
+TEncBudgetOK(ev) ==
+  /\ ~ev.panic
+  /\ IF ev.budget >= ev.flen THEN ev.ok /\ ev.wrote = ev.flen
+     ELSE ~ev.ok /\ ev.wrote <= ev.budget      \* (the encoder re-words the writer's error; only "an error" is required)
+
 TDecOK(ev) ==
   LET in == MkIn(ev.in)  r == Parse(in) IN
   CASE Prop = "C03" -> ~ev.panic
@@ -56,7 +63,8 @@ FramesOK(segs, frames, k) ==
           /\ FramesOK(Drop(segs, r.hlen + plen), frames, k + 1)
 
 EvOK(ev) == CASE ev.k = "tth_stream" -> FramesOK(ev.in, ev.frames, 1)
-              [] ev.k = "tth_enc" -> TEncOK(ev) [] ev.k = "tth_dec" -> TDecOK(ev) [] OTHER -> TRUE
+              [] ev.k = "tth_enc" -> TEncOK(ev) [] ev.k = "tth_dec" -> TDecOK(ev)
+              [] ev.k = "tth_encb" -> (Prop = "C06") => TEncBudgetOK(ev) [] OTHER -> TRUE
 TraceInit == l = 1
 TraceNext == /\ l <= Len(Trace) /\ l' = l + 1
              /\ LET ev == Trace[l] IN ~EvOK(ev) => ReportWhy("MISMATCH", l, ev.k \o "/" \o (IF "api" \in DOMAIN ev THEN ev.api ELSE "stream"))
